@@ -3,7 +3,7 @@ from . import proc_common as PC
 from .proc_common import TRUSTED_BASE, ASSUMPTIONS
 
 COQ_FILES = ["Proc.v", "ProcExec.v", "ProcProofs.v", "PropsProc.v", "DeliverExec.v", "ProcSchedExec.v"]
-THEOREMS = ["C13_every_delivery_through_chain", "C13_oracle_sound"]
+THEOREMS = ["C13_every_delivery_through_chain", "C13_context_shows_sender", "C13_oracle_sound"]
 RULE = ("scripted single-actor scenarios on the real engine: the Started handler of the first incarnation forms the first batch "
         "from {message, panicking message, Poison(self), Stop(self)} (exhaustive to length 4/5), plus panics in Initialized/Started/"
         "per incarnation, InternalError panics, handlers that send more messages, MaxRestarts 0-3, middleware chains 0-3 and external "
